@@ -675,6 +675,7 @@ def schedule_run(
     hold_at: Any = None,
     hold_idx: Any = None,
     hold_for: Any = None,
+    inject2_when_quiet: bool = False,
 ) -> bool:
     """One worker; at choice point i the message delivered next is the choices[i]-th of the
     currently deliverable ones (at most ``fanout`` candidates), left un-acked if noack[i]; an
@@ -707,7 +708,18 @@ def schedule_run(
                             if hx.decide_eq(sym, step):
                                 injected.append(tag * 100000 + step)
                                 (inject2 if (tag == 2 and inject2 is not None) else inject)(w)
+                    def _late_second() -> bool:
+                        # the run went quiet after the first injection and before the second: the operator acts now
+                        tags = [t for t, _ in injected_tags(injected)]
+                        if inject2_when_quiet and inject2 is not None and 1 in tags and 2 not in tags:
+                            injected.append(2 * 100000 + step)
+                            inject2(w)
+                            return True
+                        return False
+
                     if not w.make_visible():
+                        if _late_second():
+                            continue
                         break
                     now = stubs.CLOCK.peek_ms()
                     vis = [
@@ -717,6 +729,8 @@ def schedule_run(
                         and (r["lock_ms"] is None or r["lock_ms"] // 1000 < now // 1000)
                     ]
                     if not vis:
+                        if _late_second():
+                            continue
                         break
                     vis.sort(key=lambda r: (r["deliver_at"], r["id"]))
                     # "late message": at choice point hold_at the hold_idx-th deliverable message is held back
@@ -827,6 +841,11 @@ def post_cancel(w: World, snap: dict[str, Any], info: dict[str, Any]) -> tuple[s
     aud = w.audit()
     cseq = next((r["seq"] for r in aud if r["tbl"] == "cancel" and str(r["new"]) == "1"), None)
     if cseq is None:
+        live = [s_ for s_ in getattr(w, "cancel_seen", []) if s_ is not None and s_ not in COMPLETE]
+        if live:
+            # a CancelWorkflow was handled while the workflow was live, yet the cancel flag never became durable:
+            # nothing stops tasks from starting afterwards
+            return ("cancel_handled_but_flag_not_durable/%s" % live[0], {"workflow_status_when_handled": live[0], "final": snap["workflow"]})
         # the cancel request was never processed (injected after the end, or not injected)
         if info["injected"] and snap["workflow"] not in COMPLETE:
             return ("cancel_not_processed/" + str(snap["workflow"]), {"workflow": snap["workflow"]})
@@ -1618,6 +1637,65 @@ def inject_pause(w: World) -> None:
 
 def inject_unpause(w: World) -> None:
     w.orchestrator.unpause(w.store.retrieve(w.workflow_id))
+
+
+def post_cancel_second(w: World, snap: dict[str, Any], info: dict[str, Any]) -> tuple[str, Any] | None:
+    """post_cancel for runs whose SECOND injection is the cancel (the first one is a pause)."""
+    if not any(tag == 2 for tag, _ in injected_tags(info["injected"])):
+        return None
+    if snap["workflow"] == "PAUSED" and all(v["status"] in COMPLETE for v in snap["stages"].values()):
+        # the pause hit when only completion messages were left: CompleteWorkflow cannot leave PAUSED for
+        # SUCCEEDED whether or not a cancel follows (O10) - not attributed to the cancel
+        live = [s_ for s_ in getattr(w, "cancel_seen", []) if s_ is not None and s_ not in COMPLETE]
+        aud = w.audit()
+        if live and not any(r["tbl"] == "cancel" and str(r["new"]) == "1" for r in aud):
+            return ("cancel_handled_but_flag_not_durable/%s" % live[0], {"workflow_status_when_handled": live[0], "final": snap["workflow"]})
+        return None
+    return post_cancel(w, snap, info)
+
+
+def make_inject_pause_and_signal(persistent: bool) -> Callable[[World], None]:
+    sig = make_inject_signal(persistent)
+
+    def inj(w: World) -> None:
+        inject_pause(w)
+        sig(w)
+
+    return inj
+
+
+def post_signal_after_unpause(w: World, snap: dict[str, Any], info: dict[str, Any]) -> tuple[str, Any] | None:
+    """Pause + signal, later unpause: once the operator has resumed the workflow the signal has been delivered
+    to exactly one execution of the suspending task and the stage has finished."""
+    tags = [t for t, _ in injected_tags(info["injected"])]
+    if 1 not in tags or 2 not in tags:
+        return None
+    runs = [e for e in w.ledger.entries if e["ref"] == "w"]
+    seen = [e for e in runs if e.get("signal") == ["go", {"v": 7}]]
+    wst = snap["stages"]["w"]["status"]
+    detail = {"runs_of_suspending_task": len(runs), "runs_that_saw_the_signal": len(seen), "w": wst, "workflow": snap["workflow"]}
+    if len(seen) > 1:
+        return ("signal_delivered_twice", detail)
+    if snap["workflow"] == "PAUSED":
+        return None  # the pause caught nothing to park, Orchestrator.unpause had nothing to resume (O10): not about the signal
+    if not seen:
+        return ("signal_lost_across_pause/%s" % wst, detail)
+    if wst != "SUCCEEDED":
+        return ("signal_consumed_but_not_finished/%s" % wst, detail)
+    return None
+
+
+def inject_unpause_and_cancel(w: World) -> None:
+    """The operator lifts the pause and cancels in one go (the cancel may be handled while the workflow is still PAUSED)."""
+    wf = w.store.retrieve(w.workflow_id)
+    w.orchestrator.unpause(wf)
+    w.orchestrator.cancel(wf, "vf", "cancel requested by harness")
+
+
+def inject_cancel_then_unpause(w: World) -> None:
+    wf = w.store.retrieve(w.workflow_id)
+    w.orchestrator.cancel(wf, "vf", "cancel requested by harness")
+    w.orchestrator.unpause(wf)
 
 
 # ----------------------------------------------------------------------------------------------- concurrent commit during a task body
